@@ -1,4 +1,5 @@
 SPECIFICATION Spec
+CONSTANT NearOnly = FALSE
 CONSTANT FullSpace = FALSE
 INVARIANT Export
 CHECK_DEADLOCK FALSE
